@@ -967,6 +967,13 @@ def _mentions_harness_type(e):
         return False
     import re
     names = set(re.findall(r"'([A-Za-z_][A-Za-z0-9_]*)'", str(e)))
+    # a harness function standing in for a builtin (int -> sym_int, ...) handed to a library as if it were the builtin
+    for fn_name in re.findall(r"<function ([A-Za-z_][A-Za-z0-9_.<>]*) at 0x", str(e)):
+        base = fn_name.split('.')[-1]
+        for m in list(sys.modules.values()):
+            f = getattr(m, '__file__', None)
+            if f and os.path.abspath(f).startswith(_VERIF_ROOT) and callable(getattr(m, base, None)):
+                return True
     if not names:
         return False
     for m in list(sys.modules.values()):
